@@ -157,5 +157,15 @@ Lemmas ==
     /\ (Scaled /\ sc.kind # "op") => "error_not_scaled" \notin Tags(sc)
     /\ ("error_sign" \in FixedDevs) => "error_sign" \notin Tags(sc)
 
+\* the formulas of the code satisfy the first-order bounds on a grid of positive rationals: products for ANY uncertainties
+\* (also intervals reaching or crossing zero), quotients whenever the divisor's interval is positive
+GridV == {R(1, 4), R(1, 2), ROne, RInt(2), RInt(4), RInt(8)}
+GridM == {[v |-> v, e |-> RMul(v, k)] : v \in GridV, k \in {RZero, R(1, 4), R(1, 2), R(3, 4), ROne, RInt(2), RInt(3)}}
+GridLemma ==
+  (stage = 0 /\ Exact) =>
+    \A a \in GridM, b \in GridM :
+      /\ RLe(FirstOrderMul(a, b), MErr("mul", a, b, ROne))
+      /\ RLt(b.e, b.v) => RLe(FirstOrderDiv(a, b), MErr("div", a, b, ROne))
+
 Spec == Init /\ [][Next]_vars
 =============================================================================
